@@ -212,7 +212,7 @@ def main():
         "checks": checks,
         "not_applicable": na,
         "notes": "Every property is decided by machine-checked proof in Coq tied to /repo by translators (regexes, tables, I/O skeletons) and a "
-                 "vm_compute correspondence; see DESIGN.md. known_findings.txt lists fixed defects and the three known findings.",
+                 "vm_compute correspondence; see DESIGN.md. known_findings.txt lists the fixed defects (`fixed:`) and the known findings (`known:`, each with a replay under corpus/).",
     }
     with open(os.path.join(HERE, "MANIFEST.json"), "w") as f:
         json.dump(m, f, indent=1)
